@@ -12,7 +12,7 @@ ALPHABET = []
 META = dict(
     bounds=dict(
         quick="siphons/traps: 3 species x 2 reactions, every arc weight a symbolic integer >= 0 (presence = weight > 0), "
-              "graph input; 3 species x 2 reactions through CRNHyperGraph (coefficients 0..1); firing: 3 places, "
+              "graph input, plus 3 species x 3 reactions with at most one reactant and one product species per reaction; 3 species x 2 reactions through CRNHyperGraph (coefficients 0..1); firing: 3 places, "
               "unbounded symbolic markings and weights; realizability: 3 species x 2 reactions, coefficients 0..1, "
               "flows 0..2, and 2 species x 3 reactions with flows 0..1",
         thorough="siphons/traps 3x3 and 4x2 on graph input, 3x3 through the hypergraph; realizability 3 species x 3 "
@@ -54,8 +54,9 @@ def _oracle_sets(ns, nr, pres_r, pres_p, kind):
     return minimal
 
 
-def h_siphons_graph(E, ns, nr):
-    """find_siphons / find_traps on a bipartite DiGraph handed in directly, symbolic arc weights."""
+def h_siphons_graph(E, ns, nr, unimol=False):
+    """find_siphons / find_traps on a bipartite DiGraph handed in directly, symbolic arc weights.
+    unimol=True: every reaction has at most one reactant species and at most one product species (assumed)."""
     import networkx as nx
     from synkit.CRN.Petri.structure import find_siphons, find_traps
 
@@ -74,6 +75,12 @@ def h_siphons_graph(E, ns, nr):
             G.add_edge(rn, "S:" + s, role="product", stoich=wp[j, i])
     pres_r = {k: term_bool(v > 0) for k, v in wr.items()}
     pres_p = {k: term_bool(v > 0) for k, v in wp.items()}
+    if unimol:
+        from symx import COUNT
+
+        for j in range(nr):
+            E.assume(COUNT([pres_r[j, i] for i in range(ns)]) <= 1)
+            E.assume(COUNT([pres_p[j, i] for i in range(ns)]) <= 1)
     sip = find_siphons(G)
     trp = find_traps(G)
     _judge_sets(E, sp, nr, pres_r, pres_p, sip, trp)
@@ -219,6 +226,7 @@ def shards(tier, seed):
     sh = [
         dict(h="siphons_graph", params=dict(ns=3, nr=2)),
         dict(h="siphons_graph", params=dict(ns=2, nr=2)),
+        dict(h="siphons_graph", params=dict(ns=3, nr=3, unimol=True)),
         dict(h="siphons_hg", params=dict(ns=3, nr=2)),
         dict(h="fire", params=dict(npl=2)),
         dict(h="realizable", params=dict(ns=2, nr=2, cmax=2, fmax=2)),
